@@ -373,6 +373,20 @@ class State:
         # prune disjunctions
         if self.disj:
             newd = []
+            if hint_atoms is not None:
+                # facts over the other atoms of a touched disjunction decide which of its disjuncts are alive
+                ext = set()
+                for d in self.disj:
+                    if any(any(a in atoms for a in l.atoms()) for conj in d for l in conj):
+                        for conj in d:
+                            for l in conj:
+                                ext.update(l.atoms())
+                if ext - set(atoms):
+                    sel2, _ = select_with_defs(cons, set(hint_atoms) | ext)
+                    if not fm_unsat(sel2):
+                        sel = sel2
+                    else:
+                        return False
             for d in self.disj:
                 touched = hint_atoms is None or any(any(a in atoms for a in l.atoms()) for conj in d for l in conj)
                 if not touched:
@@ -380,7 +394,22 @@ class State:
                     continue
                 alive = []
                 for conj in d:
-                    if not fm_unsat(sel + [(l.t, l.c) for l in conj]):
+                    cc = sel + [(l.t, l.c) for l in conj]
+                    if fm_unsat(cc):
+                        continue
+                    # a disequality of the state that this disjunct forces to be an equality kills the disjunct
+                    dead = False
+                    if self.neqs:
+                        cats = set()
+                        for l in conj:
+                            cats.update(l.atoms())
+                        for n in self.neqs:
+                            if not any(a in cats for a in n.atoms()):
+                                continue
+                            if fm_unsat(cc + [((n - 1).t, (n - 1).c)]) and fm_unsat(cc + [((-n - 1).t, (-n - 1).c)]):
+                                dead = True
+                                break
+                    if not dead:
                         alive.append(conj)
                 if not alive:
                     return False
